@@ -280,7 +280,7 @@ func (vm *Vm) runCatch(ctx context.Context, b []byte) ([]byte, error) {
 		if err != nil {
 			return b, err
 		}
-		b = bh
+		b = append([]byte{}, bh...)
 	}
 	return b, nil
 }
